@@ -14,7 +14,7 @@ from mc.core import Result, Violation
 from mc.props.c06 import first_accepted_kind
 from mc.ref import interp
 
-FLOW_REASONS = {"unresolvable", "type-gate", "construct"}
+FLOW_REASONS = {"unresolvable", "type-gate", "construct", "missing-key-to-suppress"}
 ALPHA = [s for s in gen.ALL if s not in gen.DELIBERATE]
 PRIME = ["tmpl_aa", "del_a"] + [s for s in gen.PRIME if s not in gen.DELIBERATE] + ["probe_r", "tmpl_path", "ren_factor_a", "two"]
 
@@ -35,7 +35,9 @@ def inspect_prog(prog):
 def real_flow_kind(exc) -> Optional[str]:
     """Classify what the run raised by the framework's own exception class and message (no reference involved)."""
     name, msg = type(exc).__name__, str(exc)
-    if name == "KeyError" and ("Unable to resolve parameter" in msg or "not found in context" in msg):
+    if name == "KeyError" and "not found in context" in msg:
+        return "missing-key-to-suppress"
+    if name == "KeyError" and "Unable to resolve parameter" in msg:
         return "unresolvable-parameter"
     if name == "TypeError" and "Incompatible data type" in msg:
         return "type-gate"
@@ -138,6 +140,8 @@ def judge(prog, scratch, extras: int) -> Tuple[List[Tuple[str, str, dict]], dict
             reason = ref.reason if (ref.status == real.status and ref.error == real.error and ref.index == real.index) else "unclassified"
             if reason in FLOW_REASONS or (reason == "unclassified" and real.error in ("KeyError", "TypeError", "InvalidNodeParameterError", "PipelineConfigurationError", "UnknownProcessorError")):
                 kind = {"unresolvable": "unresolvable-parameter", "type-gate": "type-gate", "construct": "construction"}.get(reason, reason)
+                if kind == "missing-key-to-suppress" and real.index is not None and real.index < len(prog):
+                    kind = f"missing-key-to-suppress|{gen.SYMBOLS[prog[real.index]]['op']}-with-its-key-configured-on-the-node"
                 if reason == "unclassified":
                     # the run departs from the reference account (C01's business) — but if what it raised IS one of the flow
                     # failures the property names (judged by the framework's own exception), the implication is broken all the same
